@@ -35,6 +35,9 @@ import (
 
 func init() { streams["conc"] = streamConc }
 
+// total length of the error texts the callers formatted (only there so that the formatting is done)
+var errTextLen atomic.Int64
+
 type concCall struct {
 	g, k  int
 	req   packet.Request
@@ -44,6 +47,9 @@ type concCall struct {
 	ctxMs int
 	// pause of the caller before it makes this call (deterministic cases)
 	pauseMs int
+	// the request goes to the unit that answers with an over-long frame: the call has to fail (with
+	// the client's too-long error) and nothing else may be disturbed
+	tooLong bool
 	// written by the calling goroutine, read by the judge: both under concRun's result mutex
 	status int // 0 reply received, 1 error returned, 2 the call panicked, 3 never returned
 	reply  []byte
@@ -63,10 +69,10 @@ const concReadTimeout = 500 * time.Millisecond
 
 // a request whose bytes are unique within the run: id goes into the transaction id (TCP) and
 // into the start address (all kinds)
-func concRequest(kind int, r *rng, id uint16, silent bool) packet.Request {
+func concRequest(kind int, r *rng, id uint16, special int) packet.Request {
 	unit := uint8(1 + r.intn(4))
-	if silent {
-		unit = concSilentUnit
+	if special != 0 {
+		unit = uint8(special)
 	}
 	tcp := kind == 0
 	var req packet.Request
@@ -260,7 +266,11 @@ type concOpts struct {
 	answering bool
 	// deterministic witness of KF-C14-1: one caller; call 0 has a context of 20 ms on a device that
 	// answers after 150 ms; the caller then pauses 400 ms (the late reply has arrived) and makes call 1
-	det          bool
+	det bool
+	// share of calls addressed to the unit that answers with 265 bytes
+	longPct int
+	// call 0 of goroutine 0 goes to the unit whose reply is completed 2 ms after the read time-out
+	brink        bool
 	latency      time.Duration // slow device
 	readTimeout  time.Duration
 	writeTimeout time.Duration
@@ -291,13 +301,23 @@ func concRun(kind int, r *rng, o concOpts) concResult {
 					pauseMs = 400
 				}
 			}
+			special := 0
+			switch {
+			case ctxMs > 0:
+				special = concSilentUnit
+			case o.longPct > 0 && r.intn(100) < o.longPct:
+				special = concLongUnit
+			case o.brink && g == 0 && k == 0:
+				special = concBrinkUnit
+			}
 			var req packet.Request
 			if o.answering {
 				req = concRequestFC3(kind, r, uint16(1+g*m+k))
 			} else {
-				req = concRequest(kind, r, uint16(1+g*m+k), ctxMs > 0)
+				req = concRequest(kind, r, uint16(1+g*m+k), special)
 			}
-			calls[g] = append(calls[g], &concCall{g: g, k: k, req: req, bytes: req.Bytes(), status: 3, ctxMs: ctxMs, pauseMs: pauseMs})
+			calls[g] = append(calls[g], &concCall{g: g, k: k, req: req, bytes: req.Bytes(), status: 3, ctxMs: ctxMs,
+				pauseMs: pauseMs, tooLong: special == concLongUnit})
 		}
 	}
 	thresholds := make([]int, nCloses)
@@ -326,7 +346,8 @@ func concRun(kind int, r *rng, o concOpts) concResult {
 	var cmu sync.Mutex
 	var conns []*memConn
 	newConn := func() *memConn {
-		c := &memConn{kind: kind, latency: o.latency, blockRead: o.blockRead, inDo: &inDo}
+		c := &memConn{kind: kind, latency: o.latency, blockRead: o.blockRead, inDo: &inDo,
+			brinkAfter: o.readTimeout + 2*time.Millisecond}
 		cmu.Lock()
 		conns = append(conns, c)
 		cmu.Unlock()
@@ -419,6 +440,11 @@ func concRun(kind int, r *rng, o concOpts) concResult {
 		st, reply := 1, []byte(nil)
 		if err == nil && resp != nil {
 			st, reply = 0, resp.Bytes()
+		}
+		if err != nil {
+			// what a caller does with an error, after Do has returned and outside any lock of the
+			// client: format it (other goroutines are inside Do meanwhile)
+			errTextLen.Add(int64(len(err.Error())))
 		}
 		rmu.Lock()
 		c.status, c.reply = st, reply
@@ -523,6 +549,12 @@ func concRun(kind int, r *rng, o concOpts) concResult {
 			if c.ctxMs > 0 {
 				abandon = 1
 				abandonable[string(c.bytes)] = true
+			} else if c.tooLong {
+				abandon = 2 // not abandoned by the caller: the device's answer cannot be accepted
+				abandonable[string(c.bytes)] = true
+				if c.status == 0 {
+					allServed = false // an over-long frame was accepted
+				}
 			} else if c.status != 0 {
 				allServed = false // a call nobody abandoned was not served
 			}
@@ -673,6 +705,17 @@ func streamConc(seed uint64, thorough bool) {
 	for i := 0; i < slowRuns; i++ {
 		jobs = append(jobs, job{2, concOpts{n: 3, m: 3, readTimeout: concReadTimeout,
 			blockRead: 100 * time.Millisecond, abandonPct: 33, ctxLo: 40, ctxHi: 90, hooked: i%2 == 1}})
+	}
+	//  - over-long replies: a third of the calls go to a unit that answers with 265 bytes; they fail
+	//    with the client's too-long error, which the callers format while others are inside Do
+	//    (several clients at once: the cases of this batch run concurrently); nothing else changes
+	//  - brink: the reply to the first call is completed 2 ms AFTER the client's read time-out has
+	//    elapsed, by a Read that was entered before; the call and all later ones are served
+	for i := 0; i < slowRuns; i++ {
+		jobs = append(jobs, job{i % 2, concOpts{n: 4, m: 6, longPct: 33, readTimeout: concReadTimeout, hooked: i%4 >= 2}})
+	}
+	for i := 0; i < slowRuns; i++ {
+		jobs = append(jobs, job{i % 2, concOpts{n: 2, m: 3, brink: true, readTimeout: 100 * time.Millisecond, hooked: i%4 >= 2}})
 	}
 	// known finding KF-C14-1 (the case input says: abandoned calls go to an ANSWERING unit)
 	//  - deterministic witness, every kind: one caller, call 0 abandoned after 20 ms on a device that
